@@ -232,6 +232,10 @@ ListGroups7 ==
    \* a grouping column that is not in the select list (GroupBad: to be refused, never ignored)
    [list |-> <<Agg("count", "")>>, group |-> <<Ref("", "p")>>],
    [list |-> <<ColItem("", "p", ""), Agg("avg", "m")>>, group |-> <<Ref("", "p"), Ref("", "q")>>],
+   \* an aggregate that is given the name of a grouping column (before and after the column in the list): GROUP BY names the column
+   [list |-> <<Item("countcol", Ref("", "n"), NoCmp, "p"), ColItem("", "p", "y")>>, group |-> <<Ref("", "p")>>],
+   [list |-> <<ColItem("", "q", "k"), Item("avg", Ref("", "m"), NoCmp, "q"), Item("count", Ref("", ""), NoCmp, "p")>>, group |-> <<Ref("", "q")>>],
+   [list |-> <<Item("avg", Ref("", "m"), NoCmp, "q"), Item("count", Ref("", ""), NoCmp, "p"), ColItem("", "p", "a"), ColItem("", "q", "b")>>, group |-> <<Ref("", "p"), Ref("", "q")>>],
    \* GROUP BY without an aggregate: still one row per distinct combination
    [list |-> <<ColItem("", "p", "")>>, group |-> <<Ref("", "p")>>],
    [list |-> <<ColItem("", "q", ""), ColItem("", "p", "")>>, group |-> <<Ref("", "p"), Ref("", "q")>>],
